@@ -12,6 +12,7 @@ import (
 
 	cypherModel "github.com/specterops/dawgs/cypher/models/cypher"
 	"github.com/specterops/dawgs/graph"
+	"github.com/specterops/dawgs/util/size"
 )
 
 type Graph struct {
@@ -33,6 +34,8 @@ type DB struct {
 	FailFetch int
 	// OnFetch, when set, is called before each Fetch with its ordinal
 	OnFetch func(n int)
+	// MemLimit is what transactions report as GraphQueryMemoryLimit (0 = unlimited)
+	MemLimit size.Size
 }
 
 func New() *DB {
@@ -100,7 +103,8 @@ func (s *tx) Nodes() graph.NodeQuery { return &nodeQuery{db: s.db, g: s.db.G(s.g
 func (s *tx) Relationships() graph.RelationshipQuery {
 	return &relQuery{db: s.db, g: s.db.G(s.graphName), limit: -1}
 }
-func (s *tx) Commit() error { return nil }
+func (s *tx) Commit() error                    { return nil }
+func (s *tx) GraphQueryMemoryLimit() size.Size { return s.db.MemLimit }
 
 type cursor[T any] struct{ c chan T }
 
